@@ -173,6 +173,18 @@ func (g *Gen) Leaf(ty *Ty) *X {
 			return Var(vs[g.pick(len(vs), "ivar")], ty)
 		}
 	case ty.K == KF64:
+		if g.pick(14, "fnan") == 0 {
+			// NaN, +Inf, -Inf as values: the environment holds finite floats only (replay files are JSON)
+			zero := Bin("-", Var("G", TF64), Var("G", TF64), TF64)
+			switch g.pick(4, "fnank") {
+			case 0, 1:
+				return Bin("/", Bin("-", Var("F", TF64), Var("F", TF64), TF64), zero, TF64)
+			case 2:
+				return Bin("/", LitFloat(1.5), zero, TF64)
+			default:
+				return Bin("/", LitFloat(-2), zero, TF64)
+			}
+		}
 		if g.pick(3, "fleaf") == 0 {
 			return LitFloat([]float64{0, 0.5, 1.5, 2, 1e10, 2.5e-3, 100}[g.pick(7, "fc")])
 		}
